@@ -133,6 +133,8 @@ def verify_function(key, tier='quick', keep_terms=False, discharge=True):
                     st.prove('return-type', z3.BoolVal(False), kind='type')
                     raise PathEnd()
                 envr['result'] = rv2
+                if getattr(c, 'ghost_exit', None):
+                    E.run_ghost(st, c.ghost_exit)
                 # vacuity guard: the path must be feasible BEFORE the postconditions are assumed
                 if st.feasible(z3.BoolVal(True)):
                     res.feasible_exits += 1
